@@ -15,6 +15,9 @@ Go (proxy.go, player.go, netmc/connection.go; after the C11 fixes — the code a
     unregisterConnection(p):   Lock; if ids[id(p)] == p { found = true; delete(ids, id(p)) }
                                if names[lower(p)] == p { delete(names, lower(p)) }; Unlock; return found
                                -- as found: found = ids[id(p)] exists; both keys deleted unconditionally
+                               -- `splitUnreg` (a check-then-act variant, not in the tree): RLock; found, owns :=
+                               --   ids[id(p)] == p, names[lower(p)] == p; RUnlock; (return if neither);
+                               --   Lock; delete by key what was owned THEN; Unlock
     p.Disconnect() / read-loop error:  closeOnce.Do { cancelCtx; conn.Close; sessionHandler.Disconnected() → p.teardown() }
     teardown(p):               found := unregisterConnection(p); status from found / p.dup; fire DisconnectEvent
     Player(id) / playerByName(n) / PlayerCount() / Players():   one RLock section each
@@ -64,10 +67,12 @@ structure Mode where
   checkedUnreg   : Bool    -- unregisterConnection removes an entry only if it is the caller's
   unlockOnReject : Bool    -- registerConnection releases muP on its `return false` paths
   kickNeedsOnline : Bool   -- registerConnection tests `OnlineMode && Kick` like canRegisterConnection
+  splitUnreg : Bool := false  -- check-then-act variant: unregisterConnection decides ownership in a READ
+                              -- section, releases muP, then deletes BY KEY in a separate write section
   deriving Repr, DecidableEq
 
-def Mode.repaired : Mode := ⟨true, true, true⟩
-def Mode.asFound  : Mode := ⟨false, false, false⟩
+def Mode.repaired : Mode := ⟨true, true, true, false⟩
+def Mode.asFound  : Mode := ⟨false, false, false, false⟩
 
 /-- does `registerConnection` take its kick branch -/
 def regKick (m : Mode) (c : Cfg) : Bool := if m.kickNeedsOnline then c.online && c.kickFlag else c.kickFlag
@@ -93,6 +98,8 @@ inductive Task where
   | setDup (e : Pid)               -- e.disconnectDueToDuplicateConnection.Store(true)
   | unreg (p : Pid)                -- teardown(p): the unregisterConnection(p) critical section
   | fire (p : Pid) (found : Bool)  -- teardown(p): status from `found`, `p.dup`; fire DisconnectEvent
+  | unregWrite (p : Pid) (found ownsName : Bool)  -- split variant only: the write section acting on the
+                                                  -- ownership decided earlier in the read section
   deriving Repr, DecidableEq
 
 inductive Ev where
@@ -173,6 +180,13 @@ def stepTask (m : Mode) (c : Cfg) (s : Sys) (t : Nat) (task : Task) (rest : List
   | .setDup e => some { s with dup := upd s.dup e true, threads := s.threads.set t rest }
   | .unreg p =>
     if s.held.isSome then none
+    else if m.splitUnreg then
+      -- read section of the check-then-act variant: decide, release, (maybe) come back for the write lock
+      let found := s.ids.get (c.idOf p) == some p
+      let owns := s.names.get (c.nameOf p) == some p
+      if !found && !owns then
+        some { s with torn := upd s.torn p true, threads := s.threads.set t (.fire p false :: rest) }
+      else some { s with threads := s.threads.set t (.unregWrite p found owns :: rest) }
     else if m.checkedUnreg then
       some { s with ids := s.ids.eraseIf (c.idOf p) p, names := s.names.eraseIf (c.nameOf p) p,
                     torn := upd s.torn p true,
@@ -183,6 +197,13 @@ def stepTask (m : Mode) (c : Cfg) (s : Sys) (t : Nat) (task : Task) (rest : List
                     threads := s.threads.set t (.fire p (s.ids.get (c.idOf p)).isSome :: rest) }
   | .fire p found =>
     some { s with log := s.log ++ [.disc p (statusOf found (s.dup p))], threads := s.threads.set t rest }
+  | .unregWrite p found owns =>
+    if !m.splitUnreg || s.held.isSome then none   -- this task exists in the split variant only
+    else
+      some { s with ids := if found then s.ids.erase (c.idOf p) else s.ids,
+                    names := if owns then s.names.erase (c.nameOf p) else s.names,
+                    torn := upd s.torn p true,
+                    threads := s.threads.set t (.fire p found :: rest) }
 
 /-- one scheduling step: thread `t` performs its next atomic action (`none`: not enabled) -/
 def step (m : Mode) (c : Cfg) (s : Sys) (t : Nat) : Option Sys :=
